@@ -113,6 +113,76 @@ def _work_both(item):
     return oid, v2, r2, t2
 
 
+def _child(fn, item, conn):
+    try:
+        conn.send(fn(item))
+    except BaseException as exc:      # noqa: the parent must always get an answer
+        conn.send(("__error__", repr(exc)))
+    finally:
+        conn.close()
+
+
+def _one_isolated(fn, item, hard_timeout):
+    """Run fn(item) in its own forked process; a solver that crashes (segfault, out of memory) or ignores every time limit costs
+    that one obligation (verdict `unknown`), never the run.  Returns fn's result or None."""
+    ctx = mp.get_context("fork")
+    r, w = ctx.Pipe(duplex=False)
+    p = ctx.Process(target=_child, args=(fn, item, w))
+    p.start()
+    w.close()
+    out = None
+    try:
+        if r.poll(hard_timeout):
+            out = r.recv()
+    except (EOFError, OSError):
+        out = None
+    if p.is_alive():
+        p.join(1)
+    if p.is_alive():
+        p.kill()
+    p.join()
+    r.close()
+    if isinstance(out, tuple) and out and out[0] == "__error__":
+        return None
+    return out
+
+
+def robust_map(fn, items, jobs, hard_timeout, fallback):
+    """pool.map that survives dying workers: multiprocessing.Pool.map waits forever when a worker is killed in the middle of a task
+    (observed: a z3 worker died, the check hung for 20 minutes at zero load).  First a process pool executor (which reports a broken
+    pool instead of hanging); whatever it did not finish is re-run one forked process per item."""
+    import concurrent.futures as cf
+    results = {}
+    try:
+        with cf.ProcessPoolExecutor(max_workers=min(jobs, len(items)), mp_context=mp.get_context("fork")) as ex:
+            futs = {ex.submit(fn, it): i for i, it in enumerate(items)}
+            try:
+                for f in cf.as_completed(futs, timeout=hard_timeout * (len(items) // max(1, jobs) + 2)):
+                    try:
+                        results[futs[f]] = f.result()
+                    except Exception:
+                        pass
+            except cf.TimeoutError:
+                pass
+            if len(results) < len(items):
+                for f in futs:
+                    f.cancel()
+                for pr in list(getattr(ex, "_processes", {}).values()):
+                    try:
+                        pr.kill()
+                    except Exception:
+                        pass
+    except Exception:
+        pass
+    left = [i for i in range(len(items)) if i not in results]
+    if left:
+        from concurrent.futures import ThreadPoolExecutor
+        with ThreadPoolExecutor(min(jobs, len(left))) as tp:
+            for i, out in zip(left, tp.map(lambda i: _one_isolated(fn, items[i], hard_timeout), left)):
+                results[i] = out if out is not None else fallback(items[i])
+    return [results[i] for i in range(len(items))]
+
+
 def discharge(obligations, jobs=None, use_cvc5=True, z3_timeout=None):
     """Fills verdict/backend/time on each obligation.  Returns summary dict."""
     jobs = jobs or min(16, os.cpu_count() or 4)
@@ -127,8 +197,10 @@ def discharge(obligations, jobs=None, use_cvc5=True, z3_timeout=None):
     if not items:
         return {"wall": 0.0, "solver_time": 0.0}
     if jobs > 1 and len(items) > 1:
-        with mp.get_context("fork").Pool(min(jobs, len(items))) as pool:
-            results = pool.map(_work, items, chunksize=1)
+        zt = (z3_timeout or Z3_TIMEOUT_MS) / 1000.0
+        hard = 3 * zt + CVC5_TIMEOUT_MS / 1000.0 + 60
+        results = robust_map(_work, items, jobs, hard,
+                             lambda it: (it[0], "unknown", "", "solver process died or exceeded every time limit", hard, None))
     else:
         results = [_work(it) for it in items]
     total = 0.0
@@ -145,8 +217,7 @@ def second_opinion(obligations, jobs=None):
     items = [(o.id, o.smt2, o.expect, True, 0) for o in obligations if o.smt2]
     if not items:
         return [], 0, 0.0
-    with mp.get_context("fork").Pool(min(jobs, len(items))) as pool:
-        results = pool.map(_work_both, items, chunksize=1)
+    results = robust_map(_work_both, items, jobs, CVC5_TIMEOUT_MS / 1000.0 + 60, lambda it: (it[0], "unknown", "cvc5 process died", 0.0))
     by_id = {o.id: o for o in obligations}
     disagreements, decided, total = [], 0, 0.0
     for oid, v2, r2, t2 in results:
